@@ -213,7 +213,8 @@ def check_hist(case, ctx):
 
 
 def strat_lazy(tier):
-    op = st.one_of(st.just(["call"]), st.just(["call"]), st.tuples(st.just("advance"), st.sampled_from([1, 40, 60, 100, 101, 250])).map(list), st.just(["dirty"]))
+    op = st.one_of(st.just(["call"]), st.just(["call"]), st.tuples(st.just("advance"), st.sampled_from([1, 40, 60, 100, 101, 250])).map(list), st.just(["dirty"]),
+                   st.just(["call2"]), st.just(["dirty2"]))      # a second constant (no ttl) wrapped around the same loader
     return st.fixed_dictionaries({"ttl": st.sampled_from([0, 100]), "blocking": st.booleans(), "fail_on": st.sampled_from([None, None, 1, 2]),
                                   "ops": st.lists(op, min_size=2, max_size=14 if tier == "quick" else 30)})
 
@@ -231,27 +232,31 @@ def check_lazy(case, ctx):
     ttl, blocking, fail_on = case["ttl"], case["blocking"], case["fail_on"]
     viol = []
     try:
-        @alazy_constant(ttl=ttl)
         @A()
-        def const():
+        def loader():
             n[0] += 1
             if blocking:
                 yield DebugBatchItem("c13l", 0)
             if n[0] == fail_on:
                 raise Boom(n[0])
             return ["c", n[0]]
-
-        cached = None       # (value, refresh time)
+        consts = [alazy_constant(ttl=ttl)(loader), alazy_constant(ttl=0)(loader)]     # two constants, one loader
+        ttls = [ttl, 0]
+        cacheds = [None, None]       # per constant: (value, refresh time)
         classes = set()
         for step, op in enumerate(case["ops"]):
             if op[0] == "advance":
                 clock[0] += op[1]
                 continue
-            if op[0] == "dirty":
+            which = 1 if op[0].endswith("2") else 0
+            const, ttl, cached = consts[which], ttls[which], cacheds[which]
+            if which:
+                classes.add("second-constant")
+            if op[0] in ("dirty", "dirty2"):
                 const.dirty()
                 if cached is not None:
                     classes.add("dirty")
-                cached = None
+                cacheds[which] = None
                 continue
             before = n[0]
             try:
@@ -271,14 +276,14 @@ def check_lazy(case, ctx):
                     # a failing body is not cached; an expired value is not resurrected as fresh
                 else:
                     exp = ["ok", ["c", before + 1]]
-                    cached = (exp[1], clock[0])
+                    cacheds[which] = (exp[1], clock[0])
             if got != exp or n[0] - before != exp_runs:
-                viol.append(("C13.lazy_constant", "alazy_constant(ttl=%d), after ops %r: call returned %r with %d recomputation(s), reference says %r with %d" % (ttl, case["ops"][:step + 1], got, n[0] - before, exp, exp_runs)))
+                viol.append(("C13.lazy_constant", "alazy_constant(ttl=%d) (one of two constants over one loader), after ops %r: call returned %r with %d recomputation(s), reference says %r with %d" % (ttl, case["ops"][:step + 1], got, n[0] - before, exp, exp_runs)))
                 break
             if got[0] == "exc" and cached is not None and not fresh:
                 # body failed while an expired value exists: the stale value stays expired
                 pass
-        for c in ("hit", "expiry", "dirty"):
+        for c in ("hit", "expiry", "dirty", "second-constant"):
             ctx.label("lazy-" + c, c in classes)
         ctx.nontrivial(case, "hit" in classes and ("expiry" in classes or "dirty" in classes))
     finally:
